@@ -193,6 +193,171 @@ def run_build(c):
     return res
 
 
+
+# ---------------------------------------------------------------------------
+# use sites of the size functions: SynthDef.send/add/_do_send, NetAddr.send_clumped_bundles,
+# NetAddr.sync(elements=...), BundleNetAddr.  The target address keeps its real methods; what is
+# replaced is the transport: a logging interface whose _send records the datagram the real
+# encoder produced (base-class send_msg/send_bundle = the real-time code path).
+
+class _LogItf(osci.OscInterface):
+    def __init__(self):
+        super().__init__(None)
+        self._proto = 'udp'
+        self.sent = []
+
+    def _send(self, msg, target):
+        self.sent.append(bytes(msg.dgram))
+
+
+def enc_tree(v):
+    if v is None or isinstance(v, bool):
+        return v
+    if isinstance(v, int):
+        return {'i': str(v)}
+    if isinstance(v, float):
+        return {'f': v.hex()}
+    if isinstance(v, str):
+        return {'s': v}
+    if isinstance(v, (bytes, bytearray, memoryview)):
+        b = bytes(v)
+        return {'z': len(b)} if len(b) >= 24 and not any(b) else {'y': b.hex()}
+    if isinstance(v, (list, tuple)):
+        return [enc_tree(x) for x in v]
+    return {'o': 'object'}
+
+
+def make_addr(local=True):
+    addr = nad.NetAddr('127.0.0.1' if local else '10.1.2.3', 57231)
+    itf = _LogItf()
+    addr._osc_interface = itf
+    calls = []
+    real_send_msg, real_send_bundle = addr.send_msg, addr.send_bundle
+
+    def run(kind, args, f):
+        n0 = len(itf.sent)
+        rec = {'method': kind, 'args': enc_tree(list(args))}
+        calls.append(rec)
+        tags = []
+        heads(itf, main.current_tt._seconds, list(args), tags)
+        rec['tags'] = tags
+        if kind == 'send_msg':
+            rec['pred'] = size_of(lambda: addr._calc_msg_dgram_size(list(args)))
+        else:
+            rec['pred'] = size_of(lambda: addr._calc_bndl_dgram_size(list(args[1:])))
+        try:
+            f()
+            rec['dgrams'] = [d.hex() for d in itf.sent[n0:]]
+        except BaseException as e:
+            rec['error'] = [err_code(e), type(e).__name__]
+            rec['dgrams'] = [d.hex() for d in itf.sent[n0:]]
+
+    addr.send_msg = lambda *a: run('send_msg', a, lambda: real_send_msg(*a))
+    addr.send_bundle = lambda t, *e: run('send_bundle', (t,) + e, lambda: real_send_bundle(t, *e))
+    return addr, calls
+
+
+_DEF = {}
+
+
+def small_def():
+    if 'sd' not in _DEF:
+        from sc3.synth import synthdef as sdf
+        from sc3.synth.ugens.oscillators import SinOsc
+        from sc3.synth.ugens.inout import Out
+        _DEF['sd'] = sdf.SynthDef('c06def', lambda freq=440: Out.ar(0, SinOsc.ar(freq) * 0.1))
+        _DEF['real_bytes'] = bytes(_DEF['sd'].as_bytes())
+    return _DEF['sd']
+
+
+class _Cond:
+    """stands for the Condition of NetAddr.sync: the reply never arrives here, the generator
+    is simply resumed by the driver"""
+    test = False
+
+    def wait(self):
+        yield 'wait'
+
+    def signal(self):
+        pass
+
+
+def run_site(c):
+    import logging
+    logging.disable(logging.CRITICAL)
+    clk.SystemClock._elapsed_osc_offset = BASE_OFFSET
+    res = {}
+    if c['kind'] == 'dsend':
+        from sc3.synth import server as srv
+        sd = small_def()
+        if c.get('L') is None:
+            sd._bytes = memoryview(bytearray(_DEF['real_bytes']))
+        else:
+            fill = c.get('fill', 0)
+            sd._bytes = memoryview(bytearray((fill * (i + 1)) % 256 for i in range(c['L'])) if fill else bytearray(c['L']))
+        res['def_bytes'] = enc_tree(bytes(sd._bytes))
+        addr, calls = make_addr(c.get('local', True))
+        if 'srv' not in _DEF:
+            _DEF['srv'] = srv.Server('c06srv', addr)
+        server = _DEF['srv']
+        server._addr = addr
+        comp = dec(c['comp']) if c.get('comp') is not None else None
+        arg = (lambda s, comp=comp: comp) if c.get('comp_fn') else comp
+        written = []
+        real_write = sd._write_def_file
+        sd._write_def_file = lambda *a, **k: written.append(str(a[0]))      # no file is written by the harness
+        try:
+            via = c.get('via', 'send')
+            if via == '_do_send':
+                sd._do_send(server, comp)
+            elif via == 'add':
+                from sc3.synth import synthdesc as sdc
+                if 'lib' not in _DEF:
+                    _DEF['lib'] = sdc.SynthDescLib('c06lib', [server])
+                sd.add('c06lib', arg)
+            else:
+                sd.send(server, arg)
+        except BaseException as e:
+            res['error'] = [err_code(e), type(e).__name__, str(e)[:200]]
+        finally:
+            del sd._write_def_file
+        res['calls'] = calls
+        res['file_written'] = len(written)
+    elif c['kind'] in ('clumped', 'sync'):
+        addr, calls = make_addr(True)
+        els = dec(c['els'])
+        t = dec(c['time'])
+        try:
+            via = c.get('via', 'direct')
+            if c['kind'] == 'clumped':
+                if via == 'direct':
+                    addr.send_clumped_bundles(t, *els)
+                else:                                   # the BundleNetAddr context manager
+                    with nad.BundleNetAddr(addr) as b:
+                        for e in els:
+                            if isinstance(e[0], str):
+                                b.send_msg(*e)
+                            else:
+                                b.send_bundle(None, e)
+            else:
+                if via == 'direct':
+                    g = addr.sync(_Cond(), t, els)
+                else:
+                    b = nad.BundleNetAddr(addr)
+                    g = b.sync(None, t, els)
+                    addr_sync = addr.sync
+                    addr.sync = lambda cond=None, latency=None, elements=None: addr_sync(_Cond(), latency, elements)
+                for _ in range(100000):
+                    try:
+                        next(g)
+                    except StopIteration:
+                        break
+        except BaseException as e:
+            res['error'] = [err_code(e), type(e).__name__, str(e)[:200]]
+        res['calls'] = calls
+    logging.disable(logging.NOTSET)
+    return res
+
 def main_():
     payload = json.load(open(sys.argv[1]))
     out = []
@@ -200,6 +365,8 @@ def main_():
         try:
             if c['kind'] == 'parse':
                 out.append({'parse': parse_packet(bytes.fromhex(c['dgram']))})
+            elif c['kind'] in ('dsend', 'clumped', 'sync'):
+                out.append(run_site(c))
             elif c['kind'] == 'strpad4':
                 out.append({'vals': [int(nad.NetAddr._strpad4(n)) for n in c['n']]})
             else:
